@@ -14,4 +14,4 @@ BOUNDED = [dict(name='standin.lalr-table', function='lark.parsers.lalr_analysis:
 
 
 def register(reg):
-    lalrmodel.register_lalr(reg, serves=['C02', 'C08', 'C13', 'C10'])
+    lalrmodel.register_lalr(reg, serves=['C02', 'C08', 'C13', 'C10', 'C16'])
